@@ -6,19 +6,26 @@
    direction inside the text), for both directions, every start position and every n. *)
 From Verif Require Import Base.Prelude Model.Iter Proofs.IterProofs.
 
-(* [follows rtl a b] (Proofs/IterProofs.v) is the direction-specific reading of "b follows a":
-   left-to-right start indexes strictly increase and b begins at or after a's end; right-to-left END
-   positions strictly decrease and b ends at or before a's start; after an empty match the next
-   match is not the same empty match. *)
+(* Vocabulary (definitions in Proofs/IterProofs.v):
+   [wfm rtl len m]: m has the shape of an engine result on this text — length >= 0, 0 <= textpos <= len,
+     left-to-right textpos = index + length, right-to-left textpos = index; start edge inside the text.
+   [follows rtl a b], the direction-specific reading of "b follows a":
+     left-to-right   index a < index b  /\  index a + length a <= index b
+     right-to-left   index b + length b < index a + length a  /\  index b + length b <= index a
+     and after an empty match the next match is not the same empty match.
+   [consecutive ms a b]: a and b are adjacent elements of the list ms.
+   [filter_adj None ms]: ms minus every empty match m whose index equals the textpos of its
+     predecessor in ms (whether that predecessor was itself kept or dropped).
+   [takeZ n l]: l when n < 0, else the first n elements. *)
 
 (* next_advances, one step: FindNextMatch on a well-formed match completes (fuel len+2) and its
    result, if any, is well-formed and follows the argument *)
 Theorem C07_next_advances :
   forall rtl len attempt, forward rtl len attempt ->
   forall m, wfm rtl len m ->
-    find_next_match rtl len attempt (dflt_fuel len) m = Ok (next_p rtl len attempt m) /\
-    forall m', next_p rtl len attempt m = Some m' -> wfm rtl len m' /\ follows rtl m m'.
-Proof. exact next_advances_follows. Qed.
+  exists r, find_next_match rtl len attempt (dflt_fuel len) m = Ok r /\
+            forall m', r = Some m' -> wfm rtl len m' /\ follows rtl m m'.
+Proof. exact next_advances_stmt. Qed.
 Print Assumptions C07_next_advances.
 
 (* next_advances over the whole iteration + iteration_bound: from any in-range start, the loop
